@@ -1,0 +1,35 @@
+//! Verification-only scheduling hooks, compiled only with
+//! `--cfg fastcgi_server_verif`.
+//!
+//! The hook is a thread-local callback so that parallel harness threads cannot
+//! disturb each other. With the cfg flag absent this module does not exist.
+
+use std::cell::RefCell;
+
+type Hook = Box<dyn FnMut(&'static str)>;
+
+thread_local! {
+    static SCHED_HOOK: RefCell<Option<Hook>> = const { RefCell::new(None) };
+}
+
+/// Installs (or removes) the scheduling-point callback for the current thread.
+pub fn set_sched_hook(hook: Option<Hook>) {
+    SCHED_HOOK.with(|h| *h.borrow_mut() = hook);
+}
+
+/// Invokes the current thread's scheduling-point callback, if any.
+///
+/// The callback is taken out of the slot while it runs, so it may itself reach
+/// another scheduling point (e.g. by dropping a token) without re-entrancy.
+pub(crate) fn sched_point(name: &'static str) {
+    let taken = SCHED_HOOK.with(|h| h.borrow_mut().take());
+    if let Some(mut f) = taken {
+        f(name);
+        SCHED_HOOK.with(|h| {
+            let mut slot = h.borrow_mut();
+            if slot.is_none() {
+                *slot = Some(f);
+            }
+        });
+    }
+}
